@@ -97,6 +97,52 @@ def check(ctx, recs):
                               r.inp(), prob_min_rew=pmr)
 
 
+def residual_check(ctx, recs):
+    """the reward loop's own guarantee, theorem C14D_solve_residual (proved of the model on exact rationals), evaluated on the
+    implementation's output: when solve returns, every state's expected reward and both diagnostics follow its conditioned row up
+    to the threshold - probabilistic states by the weighted sums, a Player-1/2 state through ONE successor for the expected reward
+    and the probability diagnostic (Player 1: for all three), Player 2's reward diagnostic through the minimum over its reported
+    reachability strategy. A loop that stops before its stopping rule is met leaves a larger residual."""
+    for r in recs:
+        if not r.ok or r.op != "solve" or r.pruned is None:
+            continue
+        g, out, rows = r.game, r.out, r.pruned
+        er, erm, ermr, reachs = out[2], out[6], out[7], out[1]
+        for s, row in enumerate(rows):
+            k, rw = g["players"][s], g["rewards"][s]
+            tol = lambda v: sc.THR * (1 + 1e-6) + 1e-9 * (1 + abs(v))      # noqa: E731
+            bad = None
+            if not row:
+                if (er[s], erm[s], ermr[s]) != (0, 0, 0):
+                    bad = "an emptied state reports (%r, %r, %r), not zeros" % (er[s], erm[s], ermr[s])
+            elif k == PR:
+                a = sum(w * erm[d] for w, d in row)
+                b = rw + sum(w * ermr[d] for w, d in row)
+                if abs(a - erm[s]) > tol(a):
+                    bad = "'probability under minimal reward' %r, weighted sum over its successors %r" % (erm[s], a)
+                elif abs(b - ermr[s]) > tol(b):
+                    bad = "'reward under minimal reachability' %r, reward + weighted sum over its successors %r" % (ermr[s], b)
+            elif k == P1:
+                if not any(abs(rw + er[d] - er[s]) <= tol(er[s]) and abs(erm[d] - erm[s]) <= tol(erm[s])
+                           and abs(rw + ermr[d] - ermr[s]) <= tol(ermr[s]) for _, d in row):
+                    bad = ("no successor explains the triple (expected reward %r, probability diagnostic %r, reward diagnostic %r)"
+                           % (er[s], erm[s], ermr[s]))
+            else:
+                if not any(abs(rw + er[d] - er[s]) <= tol(er[s]) and abs(erm[d] - erm[s]) <= tol(erm[s]) for _, d in row):
+                    bad = "no successor explains the pair (expected reward %r, probability diagnostic %r)" % (er[s], erm[s])
+                else:
+                    perm = [d for a, d in row if a in (reachs[s] or [])]
+                    if perm:
+                        b = rw + min(ermr[d] for d in perm)
+                        if abs(b - ermr[s]) > tol(b):
+                            bad = ("'reward under minimal reachability' %r, reward + cheapest continuation inside the reported "
+                                   "reachability strategy %r" % (ermr[s], b))
+            if bad:
+                ctx.violation("state %d (%s): %s - the diagnostics are not converged to the solver's own tolerance" % (s, k, bad),
+                              r.inp(), rewards=er, prob_min_rew=erm, rew_min_reach=ermr)
+                break
+
+
 def k5_affected(g, P, tl, x, live):
     """known finding K5: a PLAYER state with two or more actions from which, under the final strategies, no final state
     is ever reached (its true 'probability under minimal reward' is 0) can keep a stale diagnostic copied, in an early
@@ -146,7 +192,9 @@ def run(ctx):
     sc.correspondence(ctx, recs, "cmp_diag", "c14")
     sc.padding_check(ctx, recs, ("erm", "ermr"), 40 if ctx.quick else 400, "c14")
     sc.loglevel_check(ctx, recs, ("erm", "ermr"), 25 if ctx.quick else 250, "c14")
+    sc.resolve_check(ctx, recs, ("erm", "ermr"), 30 if ctx.quick else 300, "c14")
     check(ctx, recs)
+    residual_check(ctx, recs)
 
 
 deep_search = run
